@@ -38,6 +38,8 @@ def parse(text: str, statement_stream_processor: "StatementStreamProcessor", *, 
         raise ex
     except parsimonious.ParseError as ex:
         raise DSDLSyntaxError("Syntax error", line=int(ex.line())) from None  # type: ignore
+    except RecursionError:
+        raise DSDLSyntaxError("The definition is nested too deeply") from None
     except parsimonious.VisitationError as ex:  # pragma: no cover
         # noinspection PyBroadException
         try:
